@@ -302,7 +302,12 @@ def run_case(case):
                         obs["c08.dag_optimum_compared"] += 1
                         sample["reference"] = float(best)
                         if not models.num_close(tot, float(best)):
-                            viol.append({"sig": f"C08/{cls}/" + ("not-optimal" if tot > float(best) else "below-exhaustive-reference") + tagstr, "msg": f"sum of slacks {tot}, exact optimum {best} over {len(cols)} paths; {desc}"})
+                            mech_ = tagstr
+                            if tot > float(best):
+                                r2 = models.run({"cls": cls, "spec": case["spec"], "kw": build_kw(case, k)}, solver_options=dict(SO, presolve="off"))
+                                if r2.get("solved") and models.num_close(sum(r2["sol"]["slacks"]), float(best)):
+                                    mech_ = "/solver-presolve-loses-the-optimum"
+                            viol.append({"sig": f"C08/{cls}/" + ("not-optimal" if tot > float(best) else "below-exhaustive-reference") + mech_, "msg": f"sum of slacks {tot}, exact optimum {best} over {len(cols)} paths; {desc}"})
                     if case["superset"] is None and not plr:
                         r2 = run_one("kMinPathErrorCycles", case, k, viol, obs, desc, tagstr + "/differential")
                         if r2 is not None:
@@ -317,7 +322,13 @@ def run_case(case):
                         sample["witness"] = float(wit)
                         if tot > float(wit) + 1e-6 * max(1, abs(float(wit))):
                             mech = classify_mechanism(lambda cc, pc: ref.mpe_min(cc, demand, keff, models.WT[wt], sc, prod_cap=pc), cols, m, mode, tot,
-                                                      cols_fn=lambda B: columns(G, mode, cyc, case["starts"], case["ends"], B)[0]) or tagstr
+                                                      cols_fn=lambda B: columns(G, mode, cyc, case["starts"], case["ends"], B)[0])
+                            if mech is None:
+                                # neither of the library's own caps explains it: does HiGHS find the witness value once its presolve is off?
+                                r2 = models.run({"cls": cls, "spec": case["spec"], "kw": build_kw(case, k)}, solver_options=dict(SO, presolve="off"))
+                                if r2.get("solved") and sum(r2["sol"]["slacks"]) <= float(wit) + 1e-6 * max(1, abs(float(wit))):
+                                    mech = "/solver-presolve-loses-the-optimum"
+                            mech = mech or tagstr
                             viol.append({"sig": f"C08/{cls}/worse-than-witness{mech}", "msg": f"sum of slacks {tot} but a solution with multiplicities <= 3 achieves {wit}; {desc}"})
             except ref.RefTimeout:
                 obs["c08.ref_timeout"] += 1
